@@ -4,8 +4,8 @@ package main
 // agree on the byte layout, version and extension handling.
 
 import (
-	"go/constant"
 	"fmt"
+	"go/constant"
 	"go/token"
 	"go/types"
 	"sort"
@@ -136,6 +136,7 @@ func checkC15(c *Ctx, e *Env) {
 		ruleIriProvenance(c, m, writer, "C15.WHERE")
 	}
 	ruleCompactIDLookups(c, m)
+	ruleHashIdentity(c, m)
 }
 
 // ruleCompactIDLookups (C15.LOOKUP): the compact id is a short hash of the IRI and can collide, so a
@@ -1227,4 +1228,148 @@ func loopHeaderOf(fn *ssa.Function, b *ssa.BasicBlock) *ssa.BasicBlock {
 		}
 	}
 	return best
+}
+
+// ---- IDENT: content hashes are told apart by their IRI ----------------------------------------------
+//
+// "Two different content hashes are never confused" also covers what a handler does *before* it reaches
+// the store: a de-duplication set, a cache or an equality test keyed by something computed from the
+// fields of a content hash. The IRI is the injective encoding the codec rules vouch for. A hand-made key
+// that concatenates two variable-length fields of one hash type (hash bytes + file extension) is not
+// injective; the checker does not try to prove hand-made keys injective: a map keyed by a value that
+// derives from two or more variable-length fields of a content hash, not through ToIRI, is undecided.
+func ruleHashIdentity(c *Ctx, m *Model) {
+	p := m.P
+	n := 0
+	for _, fn := range m.subjectFns(true) {
+		if len(fn.Blocks) == 0 || !strings.Contains(fnPkgPath(fn), "/x/data/") {
+			continue
+		}
+		for _, b := range fn.Blocks {
+			for _, in := range b.Instrs {
+				var key ssa.Value
+				switch y := in.(type) {
+				case *ssa.MapUpdate:
+					key = y.Key
+				case *ssa.Lookup:
+					if _, isMap := y.X.Type().Underlying().(*types.Map); isMap {
+						key = y.Index
+					}
+				}
+				if key == nil {
+					continue
+				}
+				fields := map[string]bool{}
+				hashKeyComponents(key, fields, map[ssa.Value]bool{}, 0)
+				if len(fields) == 0 {
+					continue
+				}
+				if !isCanaryFn(fn) {
+					n++
+				}
+				perType := map[string][]string{}
+				for f := range fields {
+					t := f[:strings.Index(f, ".")]
+					perType[t] = append(perType[t], f)
+				}
+				bad := ""
+				for t, fs := range perType {
+					if len(fs) >= 2 {
+						sort.Strings(fs)
+						bad = "of " + t + ": " + strings.Join(fs, ", ")
+					}
+				}
+				k := funcKey(fn) + "#mapkey"
+				if bad != "" {
+					c.Undecide("C15.IDENT", k, p.Pos(in.Pos()), "a Go map is keyed by a value built from two or more variable-length fields "+bad+" without going through ToIRI: a plain concatenation of such fields is not injective (hash X‖\"jp\" + ext \"eg\" = hash X + ext \"jpeg\"), so two different content hashes can be taken for one")
+				} else {
+					c.Hold("C15.IDENT", k, p.Pos(in.Pos()), "map key derives from at most one variable-length field per content-hash type", nil)
+				}
+			}
+		}
+	}
+	if n == 0 {
+		c.Hold("C15.IDENT", "x/data#no-hand-made-hash-keys", "-", "no Go map in x/data is keyed by a value computed from content-hash fields other than through ToIRI", nil)
+	}
+	c.ExpectCanary("C15.IDENT")
+}
+
+// hashKeyComponents collects the variable-length (string / []byte) fields of content-hash structs that a
+// value is computed from, following operands, local memory, and the results of hand-written callees; a
+// ToIRI call is where the slice stops (the IRI is injective).
+func hashKeyComponents(v ssa.Value, out map[string]bool, seen map[ssa.Value]bool, depth int) {
+	if v == nil || seen[v] || depth > 60 {
+		return
+	}
+	seen[v] = true
+	field := func(x ssa.Value, idx int) {
+		nt := namedOf(x.Type())
+		if nt == nil || !strings.HasPrefix(nt.Obj().Name(), "ContentHash") {
+			return
+		}
+		st, ok := nt.Underlying().(*types.Struct)
+		if !ok || idx >= st.NumFields() {
+			return
+		}
+		ft := st.Field(idx).Type().Underlying()
+		varLen := false
+		if bt, isB := ft.(*types.Basic); isB && bt.Kind() == types.String {
+			varLen = true
+		}
+		if _, isS := ft.(*types.Slice); isS {
+			varLen = true
+		}
+		if varLen {
+			out[nt.Obj().Name()+"."+st.Field(idx).Name()] = true
+		}
+	}
+	switch y := v.(type) {
+	case *ssa.Const, *ssa.Global, *ssa.Function, *ssa.Builtin, *ssa.Parameter, *ssa.FreeVar:
+		return
+	case *ssa.Field:
+		field(y.X, y.Field)
+		hashKeyComponents(y.X, out, seen, depth+1)
+		return
+	case *ssa.FieldAddr:
+		field(y.X, y.Field)
+		hashKeyComponents(y.X, out, seen, depth+1)
+		return
+	case *ssa.Alloc:
+		if y.Referrers() != nil {
+			for _, r := range *y.Referrers() {
+				if st, isS := r.(*ssa.Store); isS && st.Addr == y {
+					hashKeyComponents(st.Val, out, seen, depth+1)
+				}
+			}
+		}
+		return
+	case *ssa.Call:
+		if sc := y.Call.StaticCallee(); sc != nil {
+			if sc.Name() == "ToIRI" {
+				return
+			}
+			if isRepoPkgPath(fnPkgPath(sc)) && len(sc.Blocks) > 0 && depth < 40 {
+				// a hand-written helper: what it returns
+				for _, b := range sc.Blocks {
+					if ret, isR := b.Instrs[len(b.Instrs)-1].(*ssa.Return); isR {
+						for _, rv := range ret.Results {
+							hashKeyComponents(rv, out, seen, depth+20)
+						}
+					}
+				}
+				return
+			}
+		}
+		if y.Call.IsInvoke() && y.Call.Method.Name() == "ToIRI" {
+			return
+		}
+	}
+	if in, ok := v.(ssa.Instruction); ok {
+		var ops []*ssa.Value
+		for _, o := range in.Operands(ops) {
+			if *o != nil {
+				hashKeyComponents(*o, out, seen, depth+1)
+			}
+		}
+	}
 }
